@@ -73,6 +73,9 @@ static std::vector<Tok> prog(Args& a)
 		else
 			throw BadArgs("token: " + s);
 	}
+	size_t nmeta = a.u64();	  // trailing meta list: for the comparator only
+	for(size_t i = 0; i < nmeta; i++)
+		a.tok();
 	return p;
 }
 
